@@ -213,7 +213,9 @@ ipc_dialer_dial(void *arg, nni_aio *aio)
 #endif
 
 	{
-		if (errno != EINPROGRESS && errno != EAGAIN) {
+		// EAGAIN: the listener's backlog is full.  Nothing is in
+		// progress then, so that is a failed dial like any other.
+		if (errno != EINPROGRESS) {
 			if (errno == ENOENT) {
 				// No socket present means nobody listening.
 				rv = NNG_ECONNREFUSED;
